@@ -34,6 +34,9 @@ def scenarios(tier):
         # grace periods the 0.1 s polling loop hits exactly (0, 0.1, 0.5) with workers that never die from the signal
         for gg in (0, 0.1, 0.5):
             out.append(Scenario('op', op=op, n=1, pat='stubborn', inflight_kill=False, watchers=1, g=gg))
+    # a worker that is still there for an instant after its SIGKILL (kill(2) returns before the target is torn down)
+    for op in OPS:
+        out.append(Scenario('op', op=op, n=2, pat='stubborn-lag', inflight_kill=False, watchers=1))
     # requests sent with waiting: the instant of the reply is the instant the operation has completed for its client
     for op in ('stop', 'restart', 'rm', 'stop-all'):
         for pat in ('stubborn', 'slow'):
